@@ -265,6 +265,8 @@ def variant_program(prog, rng):
                 kwargs[k] = {'lit': ('NOT-CAPTURED', rng.randrange(100))}
             else:
                 kwargs[k] = {'lit': rebuild(a['lit'], rng)}
+        if rng.random() < 0.6:     # keyword arguments passed in another order are the same call
+            kwargs = dict(reversed(list(kwargs.items())))
         new_body.append({'op': 'try', 'body': [dict(c, args=args, kwargs=kwargs)]})
         kinds.append('equivalent')
     # near misses never recorded
